@@ -274,11 +274,21 @@ func unreadable(data []byte) string {
 	if err := dec.Decode(&v); err != nil {
 		return "json"
 	}
-	proc := ld.NewJsonLdProcessor()
-	if _, err := proc.Flatten(v, map[string]any{}, ld.NewJsonLdOptions("")); err != nil {
+	if ldRejects(v) {
 		return "jsonld"
 	}
 	return ""
+}
+
+// ldRejects: json-gold returns an error (or panics, which some malformed documents make it do) on the document.
+func ldRejects(v any) (rejects bool) {
+	defer func() {
+		if recover() != nil {
+			rejects = true
+		}
+	}()
+	_, err := ld.NewJsonLdProcessor().Flatten(v, map[string]any{}, ld.NewJsonLdOptions(""))
+	return err != nil
 }
 
 func runACV(args ...string) (stdout, stderr string, exit int, err error) {
